@@ -14,3 +14,15 @@ package config
 //@   pure
 //@   ensures uf("trustedDir", bool, result)
 //@ end
+
+//@ func GetDataPath
+//@   assumed
+//@   pure
+//@   ensures uf("trustedDir", bool, result)
+//@ end
+
+//@ func GetHostID
+//@   assumed
+//@   pure
+//@   ensures uf("trustedDir", bool, result)
+//@ end
